@@ -6,7 +6,7 @@ from bounded import _dimwise_common as C
 
 BUDGET = {"quick": 60.0, "thorough": 840.0}
 BOUND = ("SpatiallyAdaptiveSingleDimensions2 + GlobalTrapezoidalGrid, d in {2,3}, (lmin,lmax) in {(1,2),(1,3),(2,3)}, versions "
-         "{6,2,3,7,8}, rebalancing on/off with safety factor in {0,0.1,0.3}, boundary on/off, margin in {0.5,0.9,1.0}, 4 domains "
+         "{6,2,3,7,8}, rebalancing on/off with safety factor in {0,0.1,0.3}, boundary on/off, margin in {0.5,0.9,1.0,0.0}, 4 domains "
          "(unit, [-3,6]^d, anisotropic, non-dyadic), 3-6 refinement steps of the real performSpatiallyAdaptiv loop (tol=-1) with "
          "seeded adversarial errors per interval (arbitrary subsets >= margin*max incl. ties at max, ties exactly at the threshold, "
          "values one ulp below it, zeros, all-zero rounds, single interval, one-sided and deepest-first histories); "
@@ -145,8 +145,28 @@ def script_cases(length, safety):
                "margin": 0.9, "steps": length, "domain": "unit", "oseed": 7, "script": [[[0, i]] for i in seq]}
 
 
+# multi-interval histories of dimension 0 in which a rebalancing rotation moves a leaf that sits at the maximum level
+# (the lmax / coarsening bookkeeping must be refreshed AFTER rebalancing); fixed, seed independent, run in every tier
+ANCHOR_SCRIPTS = [
+    (0.0, [[1, 2, 3], [1, 3, 4, 5, 6]]),
+    (0.0, [[0, 1, 2], [0, 1, 2, 3, 5]]),
+    (0.0, [[0, 1, 2, 3], [0, 2, 4, 6], [1, 3, 5, 7, 9]]),
+    (0.1, [[1, 2, 3], [4], [4], [1], [2, 4, 5], [2], [6, 9, 10], [16]]),
+    (0.3, [[1, 2, 3], [1, 3, 4, 5, 6], [2, 4, 6, 8]]),
+]
+
+
+def anchor_cases():
+    for safety, steps in ANCHOR_SCRIPTS:
+        yield {"kind": "script", "d": 2, "lmin": 1, "lmax": 2, "version": 6, "rebalancing": 1, "safety": safety, "boundary": 1,
+               "margin": 0.9, "steps": len(steps), "domain": "unit", "oseed": 7, "script": [[[0, i] for i in st] for st in steps]}
+
+
 def run(ctx):
     quick = ctx.quick()
+    for case in anchor_cases():
+        ctx.case(case)
+        run_case(ctx, case)
     for case in C.covering_cases(ctx.rng, quick):
         ctx.case(case)
         run_case(ctx, case)
